@@ -2061,7 +2061,7 @@ Definition w_checked_ops : list op :=
   [OpSubscribe (w_checked TInt true) None 1 []; w_sub (BUnsub [1]) None; OpSubscribe (w_checked TStr false) None 1 [];
    OpSubscribed 1 71; OpSubscribed 2 71; OpSubscribed 3 71].
 Definition w_event (kw : kwargs) : event :=
-  {| e_sub := 71; e_pub := 900; e_args := [1%Z]; e_kwargs := kw; e_publisher := None; e_topic := None; e_retained := None |}.
+  {| e_sub := 71; e_pub := 900; e_args := [1%Z]; e_kwargs := kw; e_publisher := None; e_topic := None; e_retained := None; e_extra := 5 |}.
 (* DESIGN F-C11-1: three handlers on id 71, the first with details_arg "details" (key 3), the second a function
    accepting only keyword "a" (key 0); to be hit by EVENT args [1], kwargs {a: 1} *)
 Definition w_shared_ops : list op :=
